@@ -27,13 +27,19 @@ _PV.declare('PBool', ('b', z3.BoolSort()))
 _PV.declare('PInt', ('i', z3.IntSort()))
 _PV.declare('PStr', ('s', z3.StringSort()))
 _PV.declare('PBytes', ('by', z3.StringSort()))
-_PV.declare('PTuple', ('titems', z3.SeqSort(_fw)))
-_PV.declare('PList', ('litems', z3.SeqSort(_fw)))
+_PV.declare('PSeq', ('islist', z3.BoolSort()), ('sitems', z3.SeqSort(_fw)))     # tuple (islist=False) / list
 _PV.declare('PDict', ('dkeys', z3.SeqSort(_fw)), ('dvals', z3.ArraySort(z3.StringSort(), _fw)))
 _PV.declare('PSet', ('selems', z3.ArraySort(z3.StringSort(), z3.BoolSort())))
 _PV.declare('PObj', ('cls', z3.StringSort()), ('sval', _fw), ('flds', z3.ArraySort(z3.StringSort(), _fw)))
 _PV.declare('PRef', ('rkind', z3.StringSort()), ('rid', z3.IntSort()))   # opaque identity
 PV = _PV.create()
+# tuples and lists share one constructor (one accessor for the items: no case split when the kind is unknown)
+PV.PTuple = lambda items: PV.PSeq(z3.BoolVal(False), items)
+PV.PList = lambda items: PV.PSeq(z3.BoolVal(True), items)
+PV.is_PTuple = lambda x: z3.And(PV.is_PSeq(x), z3.Not(PV.islist(x)))
+PV.is_PList = lambda x: z3.And(PV.is_PSeq(x), PV.islist(x))
+PV.titems = PV.sitems
+PV.litems = PV.sitems
 PVSeq = z3.SeqSort(PV)
 PVArr = z3.ArraySort(z3.StringSort(), PV)      # dict: index = kenc(key)
 PVSetS = z3.ArraySort(z3.StringSort(), z3.BoolSort())
